@@ -307,7 +307,7 @@ def post_result(fe, op, reply, outcome, handlerless=False):
         if isinstance(e, AttributeError) and reply.endswith('no-body'):
             return [('C17:parse-response-no-body', desc)]
         if reply in GARBAGE_REPLIES:
-            return [('C17:garbage-reply-escapes', desc)]
+            return [(f'C17:garbage-reply-escapes:{site}', desc)]
         if handlerless and isinstance(e, KeyError):
             return [('C17:legacy-unregister-keyerror-without-handler', desc + ' (prefix registered with func=None)')]
         return [(f'C17:{op}-raises:{type(e).__name__}', desc)]
